@@ -93,7 +93,7 @@ def prefVector : Pref → Nat → List Nat
   | .arr l, sq =>
     if sq < l.length then l.take sq else l ++ List.replicate (sq - l.length) (l.getLastD 0)
 
-/-! ## `_n_to_assign_annotators`: a `while` loop that may diverge -/
+/-! ## `_n_to_assign_annotators`: a `while` loop (it could diverge before repair 6c5fda89) -/
 
 def minSucc (n c : Nat) : Nat := min n (c + 1)
 
@@ -103,11 +103,17 @@ def assignInit (nmax pref : List Nat) : List Nat := List.zipWith min nmax pref
 /-- one pass of the loop body: `np.minimum(n_max_chosen_annotators, annot_per_sample + 1)`. -/
 def assignStep (nmax cur : List Nat) : List Nat := List.zipWith minSucc nmax cur
 
-/-- the `while n_annotator_sample_pairs < batch_size` loop with at most `fuel` passes through the
-body; `none` = the loop condition still holds after `fuel` passes. -/
+def ltB (n c : Nat) : Bool := decide (c < n)
+
+/-- `np.any(annot_per_sample < n_max_chosen_annotators)`: some chosen sample can still take one more. -/
+def canGrow (nmax cur : List Nat) : Bool := (List.zipWith ltB nmax cur).any id
+
+/-- the `while n_annotator_sample_pairs < batch_size and np.any(annot_per_sample < n_max_chosen)` loop
+with at most `fuel` passes through the body; `none` = the loop condition still holds after `fuel`
+passes (never the case for `fuel ≥ Σ nmax`: `nToAssign_terminates`). -/
 def assignIter : Nat → Nat → List Nat → List Nat → Option (List Nat)
   | fuel, b, nmax, cur =>
-    if b ≤ cur.sum then some cur
+    if b ≤ cur.sum || !(canGrow nmax cur) then some cur
     else match fuel with
       | 0 => none
       | f + 1 => assignIter f b nmax (assignStep nmax cur)
@@ -280,7 +286,7 @@ def wrapperQuery (ninf : α) (cast : Nat → α) (nS m : Nat) (unl : List (List 
     | some mp => innerPicks.map (posIn mp)
   if sIdx.any (fun s => decide (A.length ≤ s)) then .error .index
   else
-    let fuel := (A.map countRow).sum + 1
+    let fuel := (sIdx.map (fun s => countRow (A.getD s []))).sum   -- enough: `nToAssign_terminates`
     match queryAnnotators ninf cast fuel m b A candRows sIdx au prefV noises with
     | .error e => .error e
     | .ok (nAs, out) =>
